@@ -574,13 +574,59 @@ def site_facts(s):
     return sorted({norm_text(s.tymap, " ".join(map(str, f[1:]))) for f in s.facts if f[0] in ("cmp", "pred", "range", "letpat")})
 
 
+def site_args(s):
+    """for an unwrap/expect on the result of a call: the arguments of that call as terms over the function's parameters, fields and
+    uninterpreted calls (affine.py; locals resolved through their single `let`), rendered independently of names and HIR ids.
+    The review of such a site argues about these values; when they change the review has to be repeated."""
+    from . import affine as A
+    if s.kind != "unwrap" or not s.parents:
+        return None
+    r = ir.strip(s.node.get("recv")) if s.node.get("recv") is not None else None
+    while r is not None and r.get("k") == "mcall" and r.get("name") in ("context", "with_context", "ok_or", "ok_or_else", "map_err", "ok", "as_ref", "as_mut") :
+        r = ir.strip(r["recv"])
+    if r is None or r.get("k") not in ("call", "mcall"):
+        return None
+    args = ([r["recv"]] if r.get("k") == "mcall" else []) + list(r.get("a", ()))
+    if not args:
+        return None
+    root = s.parents[0]
+    multi = {}
+    for y in ir.walk_nodes(root):
+        if y.get("k") in ("assign", "assignop") and y["l"].get("k") == "path":
+            h = ir.local_hid(y["l"])
+            if h is not None:
+                multi[h] = True
+    env = A.Env()
+    for y in ir.walk_nodes(root):
+        if y.get("k") == "let" and "init" in y and y["pat"].get("k") == "bind":
+            h = y["pat"]["hid"]
+            env.m[h] = A.opaque() if h in multi else A.ev(y["init"], env)
+    tm = s.tymap or {}
+
+    def nm(hid, name):
+        return norm_text(tm, name)
+    out = []
+    for a in args:
+        try:
+            out.append(A.show_stable(A.ev(a, env), nm))
+        except (KeyError, TypeError, ValueError, RecursionError):
+            out.append("?")
+    return out
+
+
 def entry_lapsed(e, s):
     """a reviewed entry records the guards that dominated the site when it was reviewed; if one of them no longer dominates the
     site the review no longer applies (None = still valid, else the reason)"""
     want = e.get("facts") or []
     have = set(site_facts(s))
     gone = [f for f in want if f not in have]
-    return None if not gone else "guard(s) %s that dominated the site when it was reviewed are gone" % gone
+    if gone:
+        return "guard(s) %s that dominated the site when it was reviewed are gone" % gone
+    if e.get("args") is not None:
+        now = site_args(s)
+        if now != e["args"]:
+            return "the arguments of the call whose result is unwrapped changed since the review: %s, reviewed with %s" % (now, e["args"])
+    return None
 
 
 def load_table(name):
